@@ -996,6 +996,11 @@ enum Body {
     Text(String),
     /// raw document bytes: totality only
     Bytes(Vec<u8>),
+    /// `ctx(x op y)` against `ctx(y op x)` (op: + or *): IEEE addition and multiplication commute,
+    /// so both orders must be accepted alike and give the same bits - whatever nested unit
+    /// functions or sexagesimal literals mean, their meaning may not depend on what stands to
+    /// their left
+    Swap { ctx: u8, x: String, y: String, mul: bool },
     Patho(PK, usize),
     /// allocation counts at n and 2n
     Scaling(PK, usize),
@@ -1015,9 +1020,22 @@ fn content_of(c: &Case) -> Option<String> {
         Body::Bad(e, d) => Some(damage(&render(e, 0), *d)),
         Body::Lit(s, a, b) => Some(format!("{}{}{}", WS[*a as usize % 7], s, WS[*b as usize % 7])),
         Body::Text(s) => Some(s.clone()),
+        Body::Swap { ctx, x, y, mul } => Some(swap_text(*ctx, x, y, *mul)),
         Body::Patho(k, n) if *n <= 4096 => Some(patho_text(*k, *n)),
         _ => None,
     }
+}
+
+const SWAP_CTX: [(&str, &str); 7] = [("", ""), ("(", ")"), ("deg(", ")"), ("rad(", ")"), ("1 + (", ")"), ("deg(rad(0) + (", "))"), ("2 * (", ")")];
+const SWAP_ATOMS: [&str; 26] = [
+    "1:30", "0:0:30", "0:30", "2.5", "7", "-3", "1e3", "pi", "rad(0)", "rad(0.5)", "deg(90)", "deg(0:30)", "rad(1:30)", "deg(rad(0.5))",
+    "rad(deg(90))", "deg(rad(0) + 1)", "(1 + 2)", "(1:30)", "(rad(1))", "deg(1) * 2", "0.1", "1:0:0", "-1:30", "deg(-1:30)", "inf", "0",
+];
+fn swap_text(ctx: u8, x: &str, y: &str, mul: bool) -> String {
+    let (l, r) = SWAP_CTX[ctx as usize % SWAP_CTX.len()];
+    // an operand that is itself a product / sum keeps its grouping through parentheses
+    let wrap = |t: &str| if t.contains(" * ") || t.contains(" + ") && !t.ends_with(')') { format!("({t})") } else { t.to_string() };
+    format!("{l}{} {} {}{r}", wrap(x), if mul { "*" } else { "+" }, wrap(y))
 }
 
 enum Bad {
@@ -1229,6 +1247,17 @@ fn check_t<T: Tgt>(c: &Case) -> Result<(), Bad> {
             check_embedded::<T>(&content, c, &exp)
         }
         Body::Text(s) => check_text::<T>(s, c),
+        Body::Swap { ctx, x, y, mul } => {
+            let (a, b) = (swap_text(*ctx, x, y, *mul), swap_text(*ctx, y, x, *mul));
+            let (da, db) = (document(&a, Style::Double, c.tag, c.pos), document(&b, Style::Double, c.tag, c.pos));
+            let pos = c.pos;
+            let (ra, rb) = small_stack(move || -> Result<_, Bad> { Ok((guarded::<T>(&da, pos, true)?, guarded::<T>(&db, pos, true)?)) })?;
+            match (&ra, &rb) {
+                (Ok(u), Ok(v)) if u.same(*v) => Ok(()),
+                (Err(_), Err(_)) => Ok(()),
+                _ => fail(format!("operand order matters: {:?} gives {}, {:?} gives {} (tag {:?})", a, show_r(&ra), b, show_r(&rb), c.tag)),
+            }
+        }
         Body::Bytes(b) => {
             for angle in [true, false] {
                 let r = small_stack(|| engine::catch(|| serde_saphyr::from_slice_with_options::<T>(b, de_opts(angle).build()).map_err(|e| e.to_string())));
@@ -1797,11 +1826,37 @@ impl Property for C19 {
                 }
             }
             Body::Scaling(..) => {}
+            Body::Swap { ctx, x, y, mul } => {
+                if *ctx != 0 {
+                    out.push(Case { body: Body::Swap { ctx: 0, x: x.clone(), y: y.clone(), mul: *mul }, ..c.clone() });
+                }
+            }
         }
         out
     }
     fn selfcheck() -> Result<(), String> {
         selfcheck()
+    }
+    /// libFuzzer input: tag, position, target, then up to 16 tokens of the soup alphabet (a byte
+    /// >= 0xC0 is taken as a raw ASCII character instead): totality, the option-off rule and the
+    /// tag / width relations are the oracle for such text
+    fn fuzz_decode(data: &[u8]) -> Option<(&'static str, Case, bool)> {
+        let mut b = engine::Bytes::new(data);
+        let tag = b.pick(&[Tag::None, Tag::None, Tag::None, Tag::Degrees, Tag::Radians, Tag::Float, Tag::Custom]);
+        let pos = b.pick(&[Pos::Root, Pos::Root, Pos::Root, Pos::Field, Pos::Field, Pos::Field, Pos::SeqItem, Pos::OptField]);
+        let target = b.pick(&[Target::F64, Target::F32]);
+        let mut s = String::new();
+        for x in b.take(16) {
+            if *x >= 0xC0 {
+                s.push((0x20 + (*x - 0xC0)) as char);
+            } else {
+                s.push_str(SOUP[*x as usize % SOUP.len()]);
+            }
+        }
+        // non-trivial: a digit together with an operator, parenthesis, unit function or colon
+        let nt = s.bytes().any(|x| x.is_ascii_digit()) && (s.bytes().any(|x| matches!(x, b'+' | b'-' | b'*' | b'/' | b'(' | b':')) || s.contains("deg") || s.contains("rad"));
+        let c = mk(Body::Text(s), tag, Style::Double, pos, target);
+        Some(("fuzz-soup", c, nt))
     }
     fn generate(ctx: &mut Ctx<Self>) {
         generate(ctx)
@@ -2237,6 +2292,29 @@ fn generate(ctx: &mut Ctx<C19>) {
     );
     ctx.run_strategy("literal-random-decimal", 7, ctx.tier.pick(20_000, 400_000), &strat, nt.clone());
     flush(ctx, &st, "literal");
+
+    // --- operand order (commutation) ---------------------------------------------------------------
+    {
+        let mut idx = 0u64;
+        for (i, x) in SWAP_ATOMS.iter().enumerate() {
+            for y in SWAP_ATOMS.iter().skip(i + 1) {
+                for k in 0..SWAP_CTX.len() as u8 {
+                    for mul in [false, true] {
+                        for tag in [Tag::None, Tag::Degrees, Tag::Radians] {
+                            idx += 1;
+                            if !ctx.mine(idx) {
+                                continue;
+                            }
+                            let target = if idx % 5 == 0 { Target::F32 } else { Target::F64 };
+                            let c = mk(Body::Swap { ctx: k, x: x.to_string(), y: y.to_string(), mul }, tag, Style::Double, Pos::Root, target);
+                            ctx.case("operand-order", &c, true);
+                        }
+                    }
+                }
+            }
+        }
+        ctx.subspace("pairs of 26 operand atoms x 7 contexts x {+, *} x 3 tags: both operand orders", idx, true);
+    }
 
     // --- token soup, strings, bytes -----------------------------------------------------------
     let strat = (soup_s(), pos_s(), target_s()).prop_map(|(s, pos, target)| mk(Body::Text(s), Tag::None, Style::Double, pos, target));
